@@ -88,7 +88,18 @@ pub fn recover(signature: [u8; 64], message: &Message) -> Result<PublicKey, Erro
     let (sig, recid) = decode_signature(signature);
     let sig =
         k256::ecdsa::Signature::from_slice(&sig).map_err(|_| Error::InvalidSignature)?;
-    let vk = VerifyingKey::recover_from_prehash(&**message, &sig, recid.into())
+    let recid: RecoveryId = recid.into();
+    // `recover_from_prehash` re-verifies the signature and rejects a high `s`, while
+    // libsecp256k1 recovers from it. `(r, n - s)` with the opposite y-parity recovers
+    // exactly the same key, so normalize first to keep both backends in agreement.
+    let (sig, recid) = match sig.normalize_s() {
+        Some(normalized) => (
+            normalized,
+            RecoveryId::new(!recid.is_y_odd(), recid.is_x_reduced()),
+        ),
+        None => (sig, recid),
+    };
+    let vk = VerifyingKey::recover_from_prehash(&**message, &sig, recid)
         .map_err(|_| Error::InvalidSignature)?;
     Ok(PublicKey::from(&vk))
 }
